@@ -46,13 +46,16 @@ class Ctx:
         self.ex = {}
         self.cache = {}
 
-    def executor(self, variant):
-        if variant not in self.ex:
-            self.ex[variant] = Executor(variant, self.workdir, "%s_%s" % (variant, self.tag))
-        return self.ex[variant]
+    def executor(self, variant, alt=""):
+        """alt='B': a second process of the same variant started with ASLR off and a padded environment"""
+        key = variant + alt
+        if key not in self.ex:
+            self.ex[key] = Executor(variant, self.workdir, "%s%s_%s" % (variant, alt, self.tag),
+                                    aslr_off=(alt == "B"), env_pad=(3000 if alt == "B" else 0))
+        return self.ex[key]
 
-    def execute(self, variant, clients, **kw):
-        return self.executor(variant).run(clients, **kw)
+    def execute(self, variant, clients, alt="", **kw):
+        return self.executor(variant, alt).run(clients, **kw)
 
     def close(self):
         for e in self.ex.values():
@@ -278,7 +281,8 @@ def do_run(h, modname, tier, seed, workdir, known, build_s, t0):
     known_hit, new_viol = {}, []
     os.makedirs(os.path.join(VERIF, "replays"), exist_ok=True)
     nondeterministic = 0
-    gate_budget = time.time() + 600
+    gate_budget = time.time() + 420
+    nshrunk = 0
     for (cls, key), lst in sorted(groups.items()):
         k = match_known(prop, key, known)
         if k:
@@ -300,7 +304,11 @@ def do_run(h, modname, tier, seed, workdir, known, build_s, t0):
             nondeterministic += 1
             print("UNREPEATABLE alarm dropped (harness nondeterminism suspected): %s %s reproduced %d/2" % (cls, key, ok))
             continue
-        small, nsh = shrink(h, plan, cls, workdir)
+        nshrunk += 1
+        if nshrunk > 3:      # the first three new violation keys are minimised; further ones are reported as found
+            new_viol.append((cls, key, v, plan, 0))
+            continue
+        small, nsh = shrink(h, plan, cls, workdir, budget_s=90)
         rep = check_fresh(h, small, workdir, "final")
         vv = [x for x in rep.violations if x["cls"] == cls]
         if not vv:
@@ -340,6 +348,7 @@ def do_run(h, modname, tier, seed, workdir, known, build_s, t0):
         "components": getattr(h, "COMPONENTS", {}),
         "known_findings_hit": {kid: n for kid, (k, n) in known_hit.items()},
         "build_s": round(build_s, 1),
+        "slowest_runs": [{"index": d["index"], "wall_s": round(d.get("wall", 0), 1)} for d in sorted(done, key=lambda d: -d.get("wall", 0))[:5]],
         "workers": workers,
     }
     zero = [p for p in getattr(h, "REACH_PROBES", []) if stats.get(p, 0) == 0]
